@@ -77,14 +77,7 @@ fn oracle(c: &Case, ctx: &mut Ctx) -> CaseResult {
 	}
 	let mut st = C03::new(&mut sim);
 	let mut tags: Vec<&'static str> = vec![];
-	let mut r = run(c, ctx, &mut sim, &mut st, &mut tags);
-	// development aid: keep searching behind findings that are listed for C10 but not yet for C03
-	if let (Err(f), true) = (&r, std::env::var("C03_DEV_TOLERATE").is_ok()) {
-		if f.key.contains("/manager-snapshot-predates-") {
-			ctx.label(&format!("dev-tolerated:{}", f.key));
-			r = Ok(());
-		}
-	}
+	let r = run(c, ctx, &mut sim, &mut st, &mut tags);
 	if ctx.replay && r.is_err() {
 		println!("==== ops ====");
 		for (i, (op, t)) in c.ops.iter().zip(tags.iter()).enumerate() {
